@@ -176,11 +176,15 @@ theorem eq_of_nodup_map_addr : ∀ {rs : List Rec}, (rs.map (·.addr)).Nodup →
   | [], _, x, hx, _, _, _ => by simp at hx
   | r :: rest, h, x, hx, y, hy, he => by
     simp only [List.map_cons, List.nodup_cons, List.mem_map, not_exists, not_and] at h
-    rcases List.mem_cons.1 hx with rfl | hx <;> rcases List.mem_cons.1 hy with rfl | hy
-    · rfl
-    · exact absurd he.symm (h.1 y hy)
-    · exact absurd he (h.1 x hx)
-    · exact eq_of_nodup_map_addr h.2 x hx y hy he
+    rcases List.mem_cons.1 hx with hx1 | hx2
+    · rcases List.mem_cons.1 hy with hy1 | hy2
+      · rw [hx1, hy1]
+      · rw [hx1] at he
+        exact absurd he.symm (h.1 y hy2)
+    · rcases List.mem_cons.1 hy with hy1 | hy2
+      · rw [hy1] at he
+        exact absurd he (h.1 x hx2)
+      · exact eq_of_nodup_map_addr h.2 x hx2 y hy2 he
 
 theorem removeAddr_length : ∀ {rs : List Rec}, (rs.map (·.addr)).Nodup → ∀ {m : Rec}, m ∈ rs →
     (removeAddr rs m.addr).length + 1 = rs.length
